@@ -129,9 +129,9 @@ func checkRules(c *Ctx, roundTrip bool) error {
 	c.Cov["recorded_target_lines_validated"] = atomic.LoadInt64(&updTraces)
 	c.Cov["exhaustive"] = keepMod == 1
 	if roundTrip {
-		c.Cov["rule"] = fmt.Sprintf("rules files of <= %d items over the 14-item vocabulary of MC_Rules x targets (7 ids x chain 0..3) x one regex of the hazard pool per target; history compare / update / compare / update / generate / edit one operand byte / compare (text and github mode) on the real binary, each step compared with the spec; non-trivial = update succeeds and the regex contains a quote, $, blank or backslash", items)
+		c.Cov["rule"] = fmt.Sprintf("rules files of <= %d items over the 16-item vocabulary of MC_Rules x targets (7 ids x chain 0..3) x one regex of the hazard pool per target; history compare / update / compare / update / generate / edit one operand byte / compare (text and github mode) on the real binary, each step compared with the spec; non-trivial = update succeeds and the regex contains a quote, $, blank or backslash", items)
 	} else {
-		c.Cov["rule"] = fmt.Sprintf("rules files of <= %d items over the 14-item vocabulary of MC_Rules x targets (7 ids x chain 0..3) x one regex of the hazard pool per target; after `regex update` the whole tree is compared with the spec: rules file bytes = Bytes(Update(..)), nothing else changed, failures leave everything untouched; non-trivial = file has >= 2 rules or the target is a chained link", items)
+		c.Cov["rule"] = fmt.Sprintf("rules files of <= %d items over the 16-item vocabulary of MC_Rules x targets (7 ids x chain 0..3) x one regex of the hazard pool per target; after `regex update` the whole tree is compared with the spec: rules file bytes = Bytes(Update(..)), nothing else changed, failures leave everything untouched; non-trivial = file has >= 2 rules or the target is a chained link", items)
 	}
 	c.Summary = fmt.Sprintf("theorem_states=%d cases=%d cli=%d", th.Distinct, len(cases), cli)
 	return nil
